@@ -11,7 +11,7 @@ from common import coq_eval, frac, close, qlit, TOL_ARITH
 
 PROP_FILE = 'theories/Properties/C19.v'
 MODEL_FILES = ['theories/Model/RdBounds.v']
-GEN_GROUPS = ['rdbounds']
+GEN_GROUPS = ['rdbounds', 'basefit']
 RULE = ('all 2x2 tables with every cell >= 1 and n <= N (N = 9 quick / 12 thorough), every completion of the '
         'unobserved potential outcomes enumerated in Coq for n <= 8; plus random larger frames with rows missing '
         'exposure/outcome, reference level 0 or 1, shuffled and re-indexed, every frame carrying a bystander column with its own NaNs; non-trivial = distinct (a,b,c,d,missing pattern, reference)')
